@@ -4,7 +4,7 @@ From Verif Require Import Sx Str.
 From Verif.Gen Require Import Tokenizer.
 From Verif.Model Require Import TokBase TokHand C02.
 From Verif.Spec Require Import TokSpec.
-From Verif.Proofs Require Import C02a C02b C02dict.
+From Verif.Proofs Require Import C02a C02b C02dict C02sim C02simtac C02simmain.
 Import ListNotations.
 Local Open Scope N_scope.
 
@@ -37,6 +37,42 @@ Example c02_example :
         OComment [121]].
 Proof. vm_compute. split; reflexivity. Qed.
 
-(* PARTIAL.  The refinement theorem "flat (run M_tok) = run S_tok for every input and start configuration"
-   (Spec/TokSpec.v is the WHATWG machine) is not proved yet; until it is, the equality of the two machines is
-   decided by running both (and the implementation) on generated inputs on every check -- a test, not a proof. *)
+(* REFINEMENT.  From each of the five start states, with any temporary buffer (last start tag name), CDATA
+   allowed or not, and ANY input: if the run of M_tok stays within the covered configurations (Proofs/C02simtac.v
+   [covered]: every state method except the steps that consume a character reference and CDATA sections), then
+   it is a run of the model's main loop, S_tok -- the per-character WHATWG machine of Spec/TokSpec.v -- also
+   terminates, its result is unique, and its token stream is M_tok's with parse errors dropped and character
+   tokens split into single characters ([flat]); both stop in the same state at the same input position.
+   No bound on the input or on the number of steps: the proof is a simulation, one lemma per state method
+   (Proofs/C02sim_*.v), re-checked against the regenerated Gen/Tokenizer.v on every run. *)
+Theorem c02_refines_whatwg : forall s0 t cd i n mf,
+  start_state s0 = true ->
+  run_cov n (init_tk s0 CNone t cd i) = Some mf ->
+  run_loop n (init_tk s0 CNone t cd i) = Some mf /\
+  exists n' sf, sp_run n' (init_tk s0 CNone t cd i) = Some sf /\
+                (forall n'' sf', sp_run n'' (init_tk s0 CNone t cd i) = Some sf' -> sf' = sf) /\
+                rev (out sf) = flat (rev (out mf)) /\ inp sf = inp mf /\ st sf = st mf.
+Proof. exact tokenizer_refines_whatwg. Qed.
+
+(* the same from ANY related pair of configurations (mid-run, any state, any current token of the right kind) *)
+Theorem c02_refinement_from_any_configuration : forall n m s mf,
+  R m s -> wk m = true -> run_cov n m = Some mf ->
+  exists n' sf, sp_run n' s = Some sf /\ R mf sf /\ wk mf = true.
+Proof. exact refinement. Qed.
+
+(* non-vacuity: the covered run exists for a document with a doctype, tags with attributes (duplicates,
+   upper case, all three value syntaxes), a comment, a bogus comment, RCDATA-like text and an end tag *)
+Example c02_refinement_example :
+  let i := [60;33;68;79;67;84;89;80;69;32;104;116;109;108;32;80;85;66;76;73;67;32;34;120;34;62;
+            60;97;32;66;61;49;32;98;61;39;50;39;32;99;61;34;51;34;32;100;47;62;120;60;47;65;32;62;
+            60;33;45;45;121;45;45;62;60;63;112;105;62;60;33;91;67;68;65;84;65;91;122;93;93;62] in
+  match run_cov (fuel_for i) (init_tk dataState CNone [] false i) with
+  | Some mf => inp mf = [] /\ length (out mf) = 10%nat
+  | None => False
+  end.
+Proof. vm_compute. split; reflexivity. Qed.
+
+(* PARTIAL.  Outside [covered] -- character references (decided separately: C14's theorems relate consumeEntity
+   to the standard's rules) and CDATA sections -- and for the glue between the model and the Python source, the
+   equality of the two machines is decided by running both (and the implementation) on generated inputs on
+   every check -- a test, not a proof. *)
